@@ -8,6 +8,7 @@ from ..fitmodel import loc, compare
 from ..rules import pickle_state_agreement, where
 from ..astutil import up, walk_local, stores, chain, const, calls, kw
 from ..loader import AnalysisError
+from ..staterules import state_roundtrip
 
 T, Q = 't', 'q'
 EXPLANATION = (
@@ -124,7 +125,7 @@ def check_state(ctx):
     repo = ctx.repo
     ci = repo.cls('extinction.extinction', 'Extinction')
     # ---- AGREE-1
-    pickle_state_agreement(ctx, ci)
+    state_roundtrip(ctx, ci)
     tt = ctx.fn(repo.func('extinction.extinction', 'Extinction.to_table'))
     ft = ctx.fn(repo.func('extinction.extinction', 'Extinction.from_table'))
     wcols = {}
@@ -162,6 +163,7 @@ def check_state(ctx):
 
 EX = 'sedfitter/extinction/extinction.py'
 MUST_FIRE = [
+    ('extinction state as bare numbers, default units re-attached without conversion', [(EX, "            'wav': self.wav,\n            'chi': self.chi,\n", "            'wav': self.wav.value,\n            'chi': self.chi.value,\n"), (EX, "        self.wav = d['wav']\n        self.chi = d['chi']", "        self.wav = d['wav'] * u.micron\n        self.chi = d['chi'] * u.cm ** 2 / u.g")]),
     ('-0.4 -> 0.4', [(EX, "return (-0.4 * np.interp(", "return (0.4 * np.interp(")]),
     ('0.55 -> 0.5', [(EX, "[0.55] * u.micron", "[0.5] * u.micron")]),
     ('left/right dropped', [(EX, "self.wav, self.chi, left=0., right=0.)", "self.wav, self.chi)")]),
@@ -178,6 +180,7 @@ MUST_FIRE = [
     ('setstate cross-wired', [(EX, "        self.wav = d['wav']\n        self.chi = d['chi']", "        self.wav = d['chi']\n        self.chi = d['wav']")]),
 ]
 MUST_SILENT = [
+    ('extinction state as bare numbers in fixed units, converted when saved', [(EX, "            'wav': self.wav,\n            'chi': self.chi,\n", "            'wav': self.wav.to(u.micron).value,\n            'chi': self.chi.to(u.cm ** 2 / u.g).value,\n"), (EX, "        self.wav = d['wav']\n        self.chi = d['chi']", "        self.wav = d['wav'] * u.micron\n        self.chi = d['chi'] * u.cm ** 2 / u.g")]),
     ('constant folded', [(EX, "return (-0.4 * np.interp(", "return (-2. / 5. * np.interp(")]),
     ('temporaries', [(EX, "            return (-0.4 * np.interp(wav.to(self.wav.unit), self.wav, self.chi, left=0., right=0.)\n                    / np.interp(([0.55] * u.micron).to(self.wav.unit), self.wav, self.chi))",
                       "            chi_v = np.interp(([0.55] * u.micron).to(self.wav.unit), self.wav, self.chi)\n            chi_q = np.interp(wav.to(self.wav.unit), self.wav, self.chi, left=0., right=0.)\n            return -0.4 * chi_q / chi_v")]),
